@@ -300,7 +300,7 @@ def c16_extra(Job, tier):
     cfg = CFG_NDEBUG
     return [Job("D_connect_drives_%s" % cfg[0], "harness/dfs_storage.c", "h_connect", enforce=["connect_drives"],
                 replace=["check_sequence_fits", "SurfaceSelector_next"], loops=True, defines=list(cfg[1]),
-                extract=ext(STORAGE_GROUP + ["connect_drives"]), tier="quick", cover=True, solver="portfolio", timeout=900)] + viewfile_jobs(Job) + mmb_jobs(Job) + mainopt_jobs(Job)
+                extract=ext(STORAGE_GROUP + ["connect_drives"]), tier="quick", cover=True, solver="portfolio", timeout=900)] + viewfile_jobs(Job) + mmb_jobs(Job) + mainopt_jobs(Job) + selector_jobs(Job)
 
 
 # ---- C17 extra: Opus volume extents ----------------------------------------------------------------------------
@@ -369,7 +369,7 @@ def c11_jobs(Job, tier):            # noqa: F811  (replaces the placeholder abov
 
 
 def c14_extra(Job, tier):
-    return write_span_jobs(Job) + space_jobs(Job) + spans_jobs(Job) + [j for j in fragment_jobs(Job) if "ctor" in j.name]
+    return write_span_jobs(Job) + space_jobs(Job) + spans_jobs(Job) + [j for j in fragment_jobs(Job) if "ctor" in j.name] + [j for j in volctor_jobs(Job) if "origin" in j.name or "map_sectors" in j.name]
 
 
 # ---- check_track_is_supported (C06 iii, C07) -------------------------------------------------------------------------
@@ -650,7 +650,7 @@ def hfegeom_jobs(Job, cfg=CFG_NDEBUG, tier="quick"):
 
 
 def hfelut_jobs(Job, cfg=CFG_NDEBUG, tier="quick"):
-    g = ["hfe_le_word", "hfe_le_word_it", "PicTrack_ctor", "read_track_offset_lut", "picfileformatheader", "hfe_nextbyte", "hfe_nextshort", "hfe_decode_header", "hfe_lut_call"]
+    g = ["hfe_le_word", "hfe_le_word_it", "PicTrack_ctor", "read_track_offset_lut", "picfileformatheader", "hfe_nextbyte", "hfe_nextshort", "hfe_decode_header", "hfe_lut_call", "hfe_encoding_of_track"]
     import native_replay as NR
     def J(name, entry, enforce, replace=(), **kw):
         return Job("D_%s_%s" % (name, cfg[0]), "harness/dfs_hfelut.c", entry, enforce=enforce, replace=list(replace), defines=list(cfg[1]), extract=ext(g), tier=tier,
@@ -659,7 +659,8 @@ def hfelut_jobs(Job, cfg=CFG_NDEBUG, tier="quick"):
             J("pictrack_ctor", "h_pictrack", ["PicTrack_ctor"]),          # le_word inlined (two calls into one object)
             J("read_track_offset_lut", "h_read_lut", ["read_track_offset_lut"], loops=True, cover=True, replay=NR.replay_hfe_lut_offset),
             J("hfe_decode_header", "h_decode_header", ["hfe_decode_header"]),
-            J("hfe_lut_call", "h_lut_call", ["hfe_lut_call"], replay=NR.replay_hfe_lut_offset)]
+            J("hfe_lut_call", "h_lut_call", ["hfe_lut_call"], replay=NR.replay_hfe_lut_offset),
+            J("hfe_encoding_of_track", "h_encoding_of_track", ["hfe_encoding_of_track"])]
 
 
 def mainopt_jobs(Job, cfg=CFG_NDEBUG, tier="quick"):
@@ -688,13 +689,15 @@ def prefix_jobs(Job, cfg=CFG_NDEBUG, tier="quick"):
 
 def volctor_jobs(Job, cfg=CFG_NDEBUG, tier="quick"):
     g = ["sector_count", "Geometry_total_sectors", "VolumeLocation_len", "VolumeLocation_start_sector", "VolumeAccess_ctor", "Volume_ctor",
-         "init_volumes_opus_vol", "init_volumes_plain_vol"]
+         "init_volumes_opus_vol", "init_volumes_plain_vol", "VolumeAccess_origin", "Volume_volume_data_origin", "Volume_map_sectors"]
     def J(name, entry, enforce, replace=()):
         return Job("D_%s_%s" % (name, cfg[0]), "harness/dfs_volctor.c", entry, enforce=enforce, replace=list(replace), defines=list(cfg[1]), extract=ext(g), tier=tier)
     return [J("volume_access_ctor", "h_access_ctor", ["VolumeAccess_ctor"]),
             J("volume_ctor", "h_volume_ctor", ["Volume_ctor"], ["VolumeAccess_ctor", "sector_count"]),
             J("init_volumes_opus_vol", "h_opus_vol", ["init_volumes_opus_vol"], ["Volume_ctor", "VolumeLocation_len", "VolumeLocation_start_sector"]),
-            J("init_volumes_plain_vol", "h_plain_vol", ["init_volumes_plain_vol"], ["Volume_ctor", "Geometry_total_sectors"])]
+            J("init_volumes_plain_vol", "h_plain_vol", ["init_volumes_plain_vol"], ["Volume_ctor", "Geometry_total_sectors"]),
+            J("volume_access_origin", "h_va_origin", ["VolumeAccess_origin"]), J("volume_data_origin", "h_vol_data_origin", ["Volume_volume_data_origin"]),
+            J("volume_map_sectors", "h_vol_map_sectors", ["Volume_map_sectors"])]
 
 
 def inventory_precheck(repo):
